@@ -1,3 +1,4 @@
+import Hannibal.Props.SendErrCurrent
 import Hannibal.Props.C17R
 import Hannibal.Props.C17NCurrent
 import Hannibal.Props.C17Current
@@ -6,3 +7,5 @@ import Hannibal.Props.C17Current
 #print axioms Hannibal.C17n_holds
 #print axioms Hannibal.C17n_current
 #print axioms Hannibal.C17r_holds
+#print axioms Hannibal.SendErr_holds
+#print axioms Hannibal.SendErr_current
